@@ -42,6 +42,9 @@ def jobs_for(pid):
         except Exception:
             continue
         patch = os.path.join(os.path.dirname(meta), 'patch.diff')
+        # a later fix: commit in /repo can touch the lines of a seeded change; the adversary's patch is kept as the record, the same change on today's code is patch.rebased.diff
+        if os.path.exists(os.path.join(os.path.dirname(meta), 'patch.rebased.diff')):
+            patch = os.path.join(os.path.dirname(meta), 'patch.rebased.diff')
         if os.path.exists(patch) and m.get('caught_by_check') is True:
             jobs.append((pid, patch))
     return jobs
